@@ -1615,6 +1615,16 @@ theorem noNew_incoming_none (fuel : Nat) (s : Sess) (hi : s.inbox = []) : NoNew 
     · exact h0
     · exact h0.trans (noNew_emit s0 (.armPeer (1200 * s0.hb)) rfl)
 
+theorem q_checkResetTime (s : Sess) (now : Int) : Q 0 s (checkResetTime s now) := by
+  have hset : ∀ x : Sess, Q 0 x (x.setLastChecked now) := fun x => Q.of_eq rfl rfl rfl rfl rfl rfl rfl
+  unfold checkResetTime
+  repeat' split
+  all_goals (try dsimp only)
+  all_goals first
+    | exact Q.refl _
+    | exact hset _
+    | exact (q_sendLogonInReplyTo _ _).trans0 (hset _)
+
 /-- **every event, every state** (nothing buffered in the inbound channel, fixed code): the number of ResendRequests
     written or queued grows by at most the event's budget; the buffer stays empty unless the event is an arrival -/
 theorem grow_stepCore (s : Sess) (e : Ev) (hi : s.inbox = []) (hfix : s.cfg.lookThroughPending = true)
@@ -1673,6 +1683,7 @@ theorem grow_stepCore (s : Sess) (e : Ev) (hi : s.inbox = []) (hfix : s.cfg.look
     · exact (h0.trans (q_sendQueued s0).noNew).grow _
     · exact (h0.trans (q_clearQueue s0).noNew).grow _
   | sessionTime r sm => exact (noNew_checkSessionTime _ s r sm hi).grow _
+  | resetTime now => exact (q_checkResetTime s now).noNew.grow _
 
 theorem rrAfter_le (s : Sess) (e : Ev) (hi : s.inbox = []) (hfix : s.cfg.lookThroughPending = true) (hna : ∀ m, e ≠ .arrive m) :
     rrAfter (step s e) ≤ s.toSend.countP isRR + evBudget s e := by
